@@ -576,10 +576,20 @@ func run(p *Plan, count bool) error {
 						if again := stampOf(txn.Route("GET", "/__version")); again != so.stamp {
 							rec.fail("%s: the version seen through one read-only transaction changed from %d to %d", so.who, so.stamp, again)
 						}
-						if st.Kind == "rtxn-commit" {
-							txn.Commit()
-						} else {
-							txn.Abort()
+						// reverse look-ups through the transaction before and after it is ended (ending a read transaction
+						// changes nothing, it stays usable), and ending it twice
+						if rte, _ := txn.Reverse("GET", "", "/__version"); stampOf(rte) != so.stamp {
+							rec.fail("%s: Txn.Reverse sees version %d, Txn.Route saw %d through the same read-only transaction", so.who, stampOf(rte), so.stamp)
+						}
+						for i := 0; i < 2; i++ {
+							if st.Kind == "rtxn-commit" {
+								txn.Commit()
+							} else {
+								txn.Abort()
+							}
+							if rte, _ := txn.Reverse("GET", "", "/__version"); stampOf(rte) != so.stamp {
+								rec.fail("%s: after ending the read-only transaction Txn.Reverse sees version %d, it saw %d before", so.who, stampOf(rte), so.stamp)
+							}
 						}
 					} else {
 						_ = f.View(func(txn *fox.Txn) error {
